@@ -10,6 +10,7 @@ import (
 	"sort"
 	"strconv"
 	"strings"
+	"unsafe"
 )
 
 type pair struct {
@@ -199,6 +200,25 @@ var Funcs = map[string]func(a, b uint64) uint64{
 		}
 		if s == "ab7XY" {
 			r += 5
+		}
+		return r
+	},
+	"unsafe_alias": func(a, b uint64) uint64 {
+		// a string made from a []byte through unsafe shares its memory: later writes show through, also in a
+		// substring; a converted copy does not change
+		buf := []byte{byte(a), byte(b), byte(a >> 8), 'z'}
+		s := *(*string)(unsafe.Pointer(&buf))
+		sub := s[1:3]
+		cp := string(buf)
+		before := uint64(s[0]) + uint64(sub[1])<<8
+		buf[0] = byte(b >> 8)
+		buf[2] ^= 0x5a
+		r := before ^ uint64(s[0])<<16 ^ uint64(sub[1])<<24 ^ uint64(cp[0])<<32 ^ uint64(cp[2])<<40
+		if s == cp {
+			r |= 1 << 60
+		}
+		if sub == cp[1:3] {
+			r |= 1 << 61
 		}
 		return r
 	},
